@@ -31,8 +31,10 @@ func NewWorkspace(c *Ctx) (*Workspace, error) {
 		return nil, err
 	}
 	files := map[string]string{
-		"go.mod":         "module " + ModPath + "\n\ngo 1.21\n\nrequire github.com/google/wire v0.0.0\n\nreplace github.com/google/wire => ./wiremod\n",
+		"go.mod":         "module " + ModPath + "\n\ngo 1.21\n\nrequire (\n\tgithub.com/google/wire v0.0.0\n\t" + ExtModPath + " v0.0.0\n)\n\nreplace github.com/google/wire => ./wiremod\n\nreplace " + ExtModPath + " => ./extmod\n",
 		"wiremod/go.mod": "module github.com/google/wire\n\ngo 1.21\n",
+		"extmod/go.mod":  "module " + ExtModPath + "\n\ngo 1.21\n\nrequire github.com/google/wire v0.0.0\n",
+		"extmod/ext.go":  "// Package ext is the root of a third-party module the programs may depend on.\npackage ext\n",
 		"wiremod/wire.go": string(marker),
 		"trace/trace.go": TraceSource,
 	}
@@ -41,6 +43,25 @@ func NewWorkspace(c *Ctx) (*Workspace, error) {
 	}
 	return w, nil
 }
+
+// ExtModPath is the module path of the third-party module every workspace
+// carries next to the programs (directory extmod, outside the programs' own
+// sources).
+const ExtModPath = "example.org/ext"
+
+// AddExt writes files (relative to the third-party module's root).
+func (w *Workspace) AddExt(files map[string]string) error {
+	m := map[string]string{}
+	for k, v := range files {
+		m[filepath.Join("extmod", k)] = v
+	}
+	return WriteTree(w.Dir, m)
+}
+
+// UserRoot is the directory holding the programs: positions below it are in
+// the user's own sources, positions in wiremod, extmod, trace or the standard
+// library are not.
+func (w *Workspace) UserRoot() string { return filepath.Join(w.Dir, "progs") }
 
 // Remove deletes the workspace.
 func (w *Workspace) Remove() { os.RemoveAll(w.Dir) }
